@@ -196,6 +196,32 @@ def check_C(S, p):
                    {"level": "C", "argv": r.argv, "input_b64": E.b64(data), "run": r.brief(), "replay": __import__("vf.replay", fromlist=["x"]).reject(r)})
 
 
+def check_C_odd_names(S, p):
+    """Sample names and labels that contain the --samples list syntax characters are legal in a samples FILE (tab separated)."""
+    from .. import replay as R
+    rng = rng_for(S.seed, "c09", p["name"], "odd")
+    cs = G.random_callset(rng, nsamples=5, nrecords=12, p_missing=0.0, p_multi=0.0, extras=False)
+    odd = ["a b", "c=d", "e,f", "g h=i", "x.y-z"]
+    rng.shuffle(odd)
+    cs.samples = odd
+    labels = rng.sample(["P Q", "P=R", "S,T", "plain"], rng.randint(1, 3))
+    k = rng.randint(len(labels), 5)
+    chosen = rng.sample(odd, k)
+    assign = labels[:] + [rng.choice(labels) for _ in range(k - len(labels))]
+    rng.shuffle(assign)
+    smap = list(zip(chosen, assign))
+    exp = reference_create(cs, smap)
+    data = E.encode(cs, rng.choice(E.CONTAINERS), rng)
+    r = E.cli_create(data, smap, samples_via="file")
+    S.count("C_base")
+    S.count("C_odd_name_files")
+    want = expected_text(exp)
+    if r.rc != 0 or r.out != want:
+        S.viol("C09:odd-names", "[C %s] samples file %r: rc %s stdout %r stderr %r, reference %r" % (p["name"], E.map_json(smap), r.rc, r.out[:120], r.err[:200], want[:120]),
+               {"level": "C", "map": E.map_json(smap), "argv": r.argv, "input_b64": E.b64(data), "replay": R.exact(r, want)})
+    S.case(key=digest([E.codes(cs), E.map_json(smap), "odd"]), nontrivial=len(exp.shape) >= 2)
+
+
 def check_L1(S, p):
     seed = S.seed
     reqs, meta = [], []
@@ -251,3 +277,4 @@ def shard(S, p):
         return
     check_L1(S, p)
     check_C(S, p)
+    check_C_odd_names(S, p)
